@@ -42,6 +42,8 @@ class Unit:
         self.vacuity = True         # include in the ensures-false vacuity probe
         self.labels = {}            # clause label -> (section, text) for reporting
         self.assoc_types = True     # emit the source impl's `type X = ..;` members
+        self.add_generics = ""      # generic parameters added to the emitted fn (impl-level generics moved to the method)
+        self.split = None           # R19: (inherent impl header, fn generics, requires expr) for trait-impl bodies Verus cannot take in place
 
 
 def _parse_rewrite(line, path):
@@ -164,6 +166,13 @@ def parse_units(path):
                     cur.profiles = v
                 elif k == "trusted":
                     cur.trusted = v
+                elif k == "add_generics":
+                    cur.add_generics = v
+                elif k == "split":
+                    parts = [x.strip() for x in v.split("|")]
+                    if len(parts) != 3:
+                        raise UnitError("%s:%d: split needs `inherent impl header | fn generics | requires`" % (path, ln))
+                    cur.split = tuple(parts)
                 elif k == "assoc_types":
                     cur.assoc_types = v == "true"
                 elif k == "vacuity":
